@@ -13,6 +13,7 @@ mod c09;
 mod c10;
 mod c12;
 mod c14;
+mod c18;
 mod hist;
 mod tok;
 
@@ -35,6 +36,7 @@ fn main() {
         "C10" => c10::run_c10(&mut out, &mut rng, tier),
         "C14" => c14::run_c14(&mut out, &mut rng, tier),
         "C12" => c12::run_c12(&mut out, &mut rng, tier),
+        "C18" => c18::run_c18(&mut out, &mut rng, tier),
         "C13" => c04::run_c13(&mut out, &mut rng, tier),
         "C05" => c05::run_c05(&mut out, &mut rng, tier),
         "C08" => c08::run_c08(&mut out, &mut rng, tier),
